@@ -9,6 +9,7 @@ import sys
 VERIF_ROOT = os.path.dirname(os.path.dirname(os.path.abspath(__file__)))
 REPO_SRC = '/repo/src'
 GUARD = 'AMPYCLOUD_VERIF'
+ORIG_PRMS = None
 
 PIN = {
     'PYTHONHASHSEED': '0',
@@ -49,6 +50,11 @@ def import_ampycloud():
     import warnings
     warnings.simplefilter('ignore')
     import ampycloud  # noqa
+    global ORIG_PRMS
+    if ORIG_PRMS is None:
+        # the dictionary object that exists at import time: what a `from .dynamic import AMPYCLOUD_PRMS` alias would hold
+        from ampycloud import dynamic
+        ORIG_PRMS = dynamic.AMPYCLOUD_PRMS
     here = os.path.realpath(ampycloud.__file__)
     if not here.startswith(os.path.realpath(REPO_SRC) + os.sep):
         raise RuntimeError(f'HARNESS-ERROR ampycloud imported from {here}, not {REPO_SRC}')
